@@ -104,13 +104,14 @@ PROPS = {
     "C03": {
         "flavors": ["sync", "async"],
         "streams": [("core", "sync", 200), ("history", "sync", 100), ("done", "sync", 60), ("actions", "sync", 60),
-                    ("core", "async", 120), ("history", "async", 60), ("select", "async", 60)],
+                    ("core", "async", 120), ("history", "async", 60), ("select", "async", 60), ("probe", "sync", 60), ("probe", "async", 40)],
         "oracles": [oracles.c03_order_accounting],
         "thorough_scale": 10,
     },
     "C05": {
         "flavors": ["sync", "async"],
-        "streams": [("core", "sync", 60), ("core", "async", 60), ("parallways", "sync", 60), ("parallways", "async", 80)],
+        "streams": [("core", "sync", 60), ("core", "async", 60), ("parallways", "sync", 60), ("parallways", "async", 80),
+                    ("probe", "sync", 60), ("probe", "async", 60)],
         "oracles": [],
         "q_checks": [_lazy2("c05_cross_engine"), _lazy2("c05_pure")],
         "thorough_scale": 6,
